@@ -124,6 +124,9 @@ def gen_int(t):
     return t.draw(100000, "int.mid")
 
 
+STRICT_RUN = [False]
+
+
 def gen_value(t, depth, budget):
     """budget: mutable [remaining nodes]"""
     budget[0] -= 1
@@ -151,7 +154,10 @@ def gen_value(t, depth, budget):
                 continue
             d[key.b] = gen_value(t, depth - 1, budget)
         return d
-    return Ref(t.draw(70000, "ref.num"), t.pick([0, 0, 1, 65535], "ref.gen"))
+    num = t.draw(70000, "ref.num")
+    if num == 0 and STRICT_RUN[0]:
+        num = 1  # strict mode deliberately rejects a reference to object 0 (the head of the free list)
+    return Ref(num, t.pick([0, 0, 1, 65535], "ref.gen"))
 
 
 # ------------------------------------------------------------------------------------
@@ -340,10 +346,12 @@ def run(tape, ctx, item=None):
 
         ctx.probe("read under settings.STRICT")
         _settings.STRICT = True
+        STRICT_RUN[0] = True
         try:
             out = run_value(t, ctx)
         finally:
             _settings.STRICT = False
+            STRICT_RUN[0] = False
         for d in out.devs:
             d.msg = "under settings.STRICT: " + d.msg
         return out
